@@ -37,7 +37,8 @@ def parse_spec(path):
                 harness=None, defines={}, cbmc_flags=[], timeout={}, mode='proof', unwind=None,
                 contracts={}, replace_extra={}, loops=[], externals={}, assumptions=[], mutants=[],
                 allow_nobody=[], includes=[], covers=[], variants=[], not_decided=[], path=path, goto_flags=[],
-                memlimit_gb=None, object_bits=None, instrument='dfcc', pins={}, status='active', pre_unwind=None, tool_artefacts=[])
+                memlimit_gb=None, object_bits=None, instrument='dfcc', pins={}, status='active', pre_unwind=None, tool_artefacts=[],
+                quick_variants={})
     cur = None
     buf = []
 
@@ -169,6 +170,13 @@ def parse_spec(path):
                 # "@@variant name: DEF1 DEF2=3" : extra defines -> the unit is run once per variant
                 name, rest = arg.split(':', 1)
                 spec['variants'].append((name.strip(), rest.split()))
+            elif key == 'quick_variants':
+                # "@@quick_variants C19: GEN U0" : at QUICK tier, for property C19 only, run just these variants of the unit
+                # ("none": the unit is not run for that property at quick tier). The thorough tier always runs every variant.
+                # Used where a unit's variants repeat the same memory-safety / ledger obligations and differ only in
+                # facts that belong to another property; what is left out is listed in the evidence.
+                pr, rest = arg.split(':', 1)
+                spec['quick_variants'][pr.strip()] = rest.split()
             elif key == 'end':
                 pass
             else:
